@@ -87,9 +87,14 @@ class Prop(object):
         self._bad = lossless_boundary()
         ctx.evaluations += 15
         ctx.corr_names.append("REAL encode -> serialise -> validate: accepted, configured parameters, one picture per input in order, numbers")
-        for _ in range(ctx.n(1200, 40000)):
-            cf = G.rand_config(rng, vary_metadata=True)
-            pics = G.rand_pictures(rng, cf)
+        from props.c04 import big_slice_case
+
+        for i in range(ctx.n(1200, 40000)):
+            if i % 12 == 11:   # few large lossless slices with all the detail in one component (scaler chosen per slice)
+                cf, pics = big_slice_case(rng)
+            else:
+                cf = G.rand_config(rng, vary_metadata=True)
+                pics = G.rand_pictures(rng, cf)
             why = violates(cf, pics)
             ctx.evaluations += 1
             ctx.count("e2e:profile%d:%s" % (int(cf["profile"]), "lossless" if cf["lossless"] else "lossy"))
@@ -106,9 +111,14 @@ class Prop(object):
         b = lossless_boundary()
         if b:
             return b
-        for _ in range(ctx.n(3000, 60000)):
-            cf = G.rand_config(rng, vary_metadata=True)
-            pics = G.rand_pictures(rng, cf)
+        from props.c04 import big_slice_case
+
+        for i in range(ctx.n(3000, 60000)):
+            if i % 12 == 11:
+                cf, pics = big_slice_case(rng)
+            else:
+                cf = G.rand_config(rng, vary_metadata=True)
+                pics = G.rand_pictures(rng, cf)
             why = violates(cf, pics)
             if why:
                 return {"config": G.describe(cf), "pictures": pics, "why": why}
